@@ -505,7 +505,7 @@ func c19Corruptions(r *Run, path string) int {
 	numBad := []struct {
 		n string
 		v any
-	}{{"negative", json.Number("-5")}, {"fractional", json.Number("1.5")}, {"over 64 bits", json.Number("18446744073709551616")}, {"non-numeric string", "12ab"}, {"numeric string for a number", "12"}, {"list for a scalar", []any{json.Number("1")}}, {"object for a scalar", map[string]any{"a": json.Number("1")}}, {"true", true}}
+	}{{"negative", json.Number("-5")}, {"fractional", json.Number("1.5")}, {"over 64 bits", json.Number("18446744073709551616")}, {"over 64 bits, 20 digits (3*10^19)", json.Number("30000000000000000000")}, {"over 64 bits (2^64 + 2^63 + 12345)", json.Number("27670116110564339993")}, {"over 64 bits (2^65 - 1)", json.Number("36893488147419103231")}, {"over 64 bits, 21 digits", json.Number("184467440737095516160")}, {"exponent notation", json.Number("1e3")}, {"non-numeric string", "12ab"}, {"numeric string for a number", "12"}, {"list for a scalar", []any{json.Number("1")}}, {"object for a scalar", map[string]any{"a": json.Number("1")}}, {"true", true}}
 	strBad := []struct {
 		n string
 		v any
@@ -646,7 +646,7 @@ func c19CorruptOther(r *Run, vdPath, commonPath string) int {
 		for _, bad := range []struct {
 			n string
 			v any
-		}{{"negative", json.Number("-5")}, {"fractional", json.Number("1.5")}, {"over 64 bits", json.Number("18446744073709551616")}, {"a numeric string", "12"}, {"a list for a scalar", []any{json.Number("1")}}} {
+		}{{"negative", json.Number("-5")}, {"fractional", json.Number("1.5")}, {"over 64 bits", json.Number("18446744073709551616")}, {"over 64 bits, 20 digits (3*10^19)", json.Number("30000000000000000000")}, {"over 64 bits (2^65 - 1)", json.Number("36893488147419103231")}, {"a numeric string", "12"}, {"a list for a scalar", []any{json.Number("1")}}} {
 			doc := load(commonPath)
 			if doc == nil {
 				return ok
